@@ -3,7 +3,7 @@
    for each rule (no spurious refusal by that rule).  The global converse - a valid design passes every rule and every
    assertion of the pipeline - is not one theorem: it is covered by the valid stream of the correspondence (partial). *)
 From VV Require Import Model.Base Model.Pattern Model.Seq Model.CodonTable Model.Transcript Model.Mutators Model.Targeton Model.Views
-  Model.Config Model.Refusal Proofs.CodonProofs Proofs.ConfigProofs Proofs.RefusalProofs.
+  Model.Config Model.Refusal Proofs.CodonProofs Proofs.ConfigProofs Proofs.RefusalProofs Proofs.ProgressProofs.
 
 (* a codon-level mutator requested for a non-coding region *)
 Theorem C19_cds_mutator_noncoding_refused : forall q ms k,
@@ -27,6 +27,18 @@ Proof. exact region_inside_accepted. Qed.
 Theorem C19_region_noncoding_accepted : forall exons r,
   (forall e, In e exons -> ~ overlaps_exon e r) -> region_exon_id exons r = Ok None.
 Proof. exact region_noncoding_accepted. Qed.
+
+(* the converse at the region stage (where the crashes of the unrepaired tool were): for exons sorted and disjoint, a sequence
+   covering them, a region inside its exon and the codons at both ends of the region complete within the transcript, building
+   the extended coding sequence never fails - every assertion, index and range constructor on the way succeeds *)
+Theorem C19_valid_region_never_refused : forall t q e r i,
+  exons_sorted (t_exons t) -> exons_nonempty (t_exons t) -> seq_covers q (t_exons t) ->
+  exon_list_index t (x_index e) = Ok i -> znth i (t_exons t) = Some e -> 0 <= x_frame e <= 2 ->
+  0 <= rs r -> rs r <= re r -> inside_exon e r ->
+  (forall b a, range_cds_exts (t_strand t) e r = Ok (b, a) ->
+     b - (rs r - x_start e) <= total_len (zfirstn i (t_exons t)) /\ a - (x_end e - re r) <= total_len (zskipn (i + 1) (t_exons t))) ->
+  exists c, get_cds_seq_exon t q e r = Ok c.
+Proof. exact get_cds_seq_exon_total. Qed.
 
 (* a region or extension exceeding the targeton: accepted exactly when all of it stays inside *)
 Theorem C19_targeton_validate_iff : forall c,
@@ -61,6 +73,22 @@ Proof. exact sge_valid_iff. Qed.
 Theorem C19_ambiguous_base_refused : forall s, is_dna_str s = true <-> exists l, dna_of_string s = Some l.
 Proof. exact adaptor_valid_iff. Qed.
 
+(* non-vacuity of the progress theorem: a three-exon minus-strand transcript with a one-base middle exon; the region is that exon *)
+Example C19_progress_example :
+  let tr := mkTr Minus [mkEx 5 8 2 1; mkEx 13 13 1 2; mkEx 15 18 0 0] in
+  let q := mkSeq 1 (d "AAAACCCAGGGGTTTTAGCATTTTT") in
+  exons_sorted (t_exons tr) /\ exons_nonempty (t_exons tr) /\ seq_covers q (t_exons tr) /\
+  exon_list_index tr 1 = Ok 1 /\ range_cds_exts Minus (mkEx 13 13 1 2) (mkRange 13 13) = Ok (1, 1) /\
+  total_len (zfirstn 1 (t_exons tr)) = 4 /\ total_len (zskipn 2 (t_exons tr)) = 4 /\
+  is_ok (get_cds_seq_exon tr q (mkEx 13 13 1 2) (mkRange 13 13)) = true.
+Proof.
+  cbv zeta. repeat split; try (vm_compute; reflexivity).
+  - unfold exons_sorted. cbn. repeat constructor; cbn; lia.
+  - intros e [<-|[<-|[<-|[]]]]; cbn; lia.
+  - destruct H as [<-|[<-|[<-|[]]]]; cbn; lia.
+  - destruct H as [<-|[<-|[<-|[]]]]; vm_compute; reflexivity.
+Qed.
+
 (* non-vacuity: regions against the exons [10,19] and [30,37] *)
 Example C19_example :
   let ex := [mkEx 10 19 0 0; mkEx 30 37 1 2] in
@@ -74,6 +102,7 @@ Print Assumptions C19_region_straddles_refused.
 Print Assumptions C19_region_two_exons_refused.
 Print Assumptions C19_region_inside_accepted.
 Print Assumptions C19_region_noncoding_accepted.
+Print Assumptions C19_valid_region_never_refused.
 Print Assumptions C19_targeton_validate_iff.
 Print Assumptions C19_two_ppe_one_codon_refused.
 Print Assumptions C19_fixed_labels_parse.
